@@ -21,6 +21,48 @@ func (r *MacroRule) RunPass(ctx *Context, pass Pass) {
 		}
 	}
 	r.Expr.RunPass(ctx, pass)
+
+	if pass == Check {
+		// A macro that is never used by a token is never expanded (NFACons),
+		// so cycles are looked for here as well.
+		r.checkCycle(ctx)
+	}
+}
+
+// checkCycle reports an error if the macro refers to itself, directly or
+// through other macros.
+func (r *MacroRule) checkCycle(ctx *Context) {
+	visited := make(map[*MacroRule]bool)
+	var visitExpr func(e *LexerExpr) bool
+	visitExpr = func(e *LexerExpr) bool {
+		for _, factor := range e.Factors {
+			for _, termCard := range factor.Terms {
+				switch term := termCard.Term.(type) {
+				case *LexerExpr:
+					if visitExpr(term) {
+						return true
+					}
+				case *LexerTermRef:
+					// All names are registered by now (CreateNames pass).
+					m, _ := ctx.Lookup(term.Ref).(*MacroRule)
+					if m == r {
+						return true
+					}
+					if m == nil || visited[m] {
+						continue
+					}
+					visited[m] = true
+					if visitExpr(m.Expr) {
+						return true
+					}
+				}
+			}
+		}
+		return false
+	}
+	if visitExpr(r.Expr) {
+		ctx.Errs.Errorf(ctx.Position(r), "macro cycle detected")
+	}
 }
 
 func (r *MacroRule) NFACons(ctx *Context) *mode.NFAComposite {
